@@ -385,7 +385,7 @@ class SimStep:
                         message=str(exc)[-3000:])
             finally:
                 b.rpc_in_flight -= 1
-        elif a == "drop" and b.exec_count.get(self.label, 0) > 3:
+        elif a == "drop" and b.exec_count.get(self.label, 0) > b.drop_cutoff:
             # A step that is run again and again because of its own late requests would never
             # end the build: from the fourth execution on the request is made the normal way.
             await self.run_action({**action, "a": "raw"})
@@ -483,6 +483,7 @@ class Build:
         self.rpc_in_flight = 0
         self.dropped = []
         self.exec_count = {}
+        self.drop_cutoff = 3
         self.signals = {}
         self.running_cmds = 0
         self.monitors = list(monitors)
@@ -617,6 +618,7 @@ def run_build(cfg=None, ctl=None, monitors=(), driver=None, env=None, timeout=60
     install_patches()
     cfg = cfg or {}
     build = Build(ctl, monitors)
+    build.drop_cutoff = cfg.get("drop_cutoff", 3)
     _CURRENT["build"] = build
     os.makedirs(".stepup", exist_ok=True)
     sockdir = tempfile.mkdtemp(prefix="vs", dir=os.environ.get("VERIF_SCRATCH", "/tmp"))
